@@ -392,5 +392,65 @@ func batchCase(t *engine.T, path string, ki int) {
 				t.Nontrivial(fmt.Sprintf("batch/blocks2x/%v/%d", dec, p))
 			}
 		}
+		// Destination window longer than the source (the shape the CTR stream uses: dst = out[remain:]): the
+		// blocks produced for dst[:len(src)] must be the ones an exact-size call produces, nothing may be stored
+		// at or after dst[len(src)], and nothing may be read after the end of src (src ends at a guard page).
+		for _, nb := range []int{conc, 2 * conc} {
+			for _, extra := range []int{16, 16 * conc, 32 * conc, 48 * conc} {
+				for _, dec := range []bool{false, true} {
+					for _, inplace := range []bool{false, true} {
+						in := make([]byte, 16*nb)
+						for j := 0; j < nb; j++ {
+							v, _ := value(structured + 30 + j)
+							copy(in[16*j:], v)
+						}
+						call, dir := cb.EncryptBlocks, "enc"
+						if dec {
+							call, dir = cb.DecryptBlocks, "dec"
+						}
+						// exact-size reference run of the library itself
+						exact := pool.Copy(in)
+						if t.Guard("batch/blocks-wide-dst/"+dir+"/exact", func() { call(exact, exact) }) {
+							pool.Release()
+							continue
+						}
+						exactOut := append([]byte{}, exact...)
+						var dst, src []byte
+						if inplace {
+							dst = pool.Get(len(in) + extra)
+							engine.FillPattern(dst, 3)
+							copy(dst, in)
+							src = dst[:len(in)]
+						} else {
+							src = pool.Copy(in)
+							dst = pool.Get(len(in) + extra)
+							engine.FillPattern(dst, 3)
+						}
+						tail := append([]byte{}, dst[len(in):]...)
+						key := fmt.Sprintf("batch/blocks-wide-dst/%s/%s", dir, map[bool]string{true: "inplace", false: "disjoint"}[inplace])
+						if t.Guard(key, func() { call(dst, src) }) {
+							pool.Release()
+							continue
+						}
+						t.Eval(1)
+						if !bytes.Equal(dst[:len(in)], exactOut) {
+							d := engine.FirstDiff(dst[:len(in)], exactOut)
+							t.Fail(key+"/differs-from-exact-size-call", "%d blocks into a %d-byte destination: block %d differs from what the same call with len(dst)==len(src) produces; got %s want %s", nb, len(dst), d/16, engine.Hex(dst[:len(in)]), engine.Hex(exactOut))
+						}
+						if !bytes.Equal(dst[len(in):], tail) {
+							d := engine.FirstDiff(dst[len(in):], tail)
+							t.Fail(key+"/stores-past-source-length", "%d blocks into a %d-byte destination: byte %d after dst[len(src)] was overwritten", nb, len(dst), d)
+						}
+						if !inplace && !bytes.Equal(src, in) {
+							t.Fail(key+"/source-modified", "%d blocks into a %d-byte destination: source changed", nb, len(dst))
+						}
+						if !pool.Release() {
+							t.Fail(key+"/write-before-buffer", "canary overwritten")
+						}
+						t.Nontrivial(fmt.Sprintf("batch/blocks-wide-dst/%d/%d/%v/%v", nb, extra, dec, inplace))
+					}
+				}
+			}
+		}
 	}
 }
